@@ -410,6 +410,8 @@ func diffScenarios(quick bool) []diffScenario {
 
 func judgeDiff(sc diffScenario) (string, string) {
 	wi, ws := osw.NewWorld(), osw.NewWorld()
+	wi.LongLived()
+	ws.LongLived()
 	buildOS(wi, sc, false)
 	buildOS(ws, sc, true)
 	for i, ev := range sc.Script {
